@@ -89,7 +89,7 @@ def run(ctx):
 
 def ridge_oracle(ctx, rng, eng):
     import contextlib, io
-    for it in range(25 if ctx.quick() else 400):
+    for it in range(40 if ctx.quick() else 400):
         Hm, Wm = rng.randrange(60, 160), rng.randrange(60, 200)
         parallel = rng.random() < 0.4      # long parallel sloped ridges: vertical separation >= 15 at every column, bounding boxes overlap
         if parallel:
@@ -99,7 +99,8 @@ def ridge_oracle(ctx, rng, eng):
         maps = np.zeros((Hm, Wm, 5), dtype=np.float32)
         n = rng.randrange(1, 6)
         ys = []
-        y = rng.randrange(10, 20)
+        want_specks = rng.random() < 0.5
+        y = rng.randrange(10, 20) if not want_specks else rng.randrange(22, 32)
         ridges = []
         for k in range(n):
             if y > Hm - 12:
@@ -127,8 +128,39 @@ def ridge_oracle(ctx, rng, eng):
                 maps[int(round(y)), x0, 3] = 0.5
                 maps[int(round(y + slope * (x1 - x0))), x1, 3] = 0.5
             ridges.append(dict(x0=x0, x1=x1, y0=y, y1=y + slope * (x1 - x0), up=up, down=down, endpoints=endpoints))
-            y += rng.randrange(16, 30)
-        inp = dict(map_shape=[Hm, Wm], downsample=ds, ridges=[{k: (round(v, 2) if isinstance(v, float) else v) for k, v in r.items()} for r in ridges])
+            y += rng.randrange(16, 30) if not want_specks else rng.randrange(28, 40)
+        # noise specks: blobs of 1..4 baseline pixels (too small to be a text line) well away from every ridge, with heights of their own
+        specks = []
+        if ridges and want_specks:
+            occupied = [(min(r['y0'], r['y1']) - 11, max(r['y0'], r['y1']) + 11) for r in ridges]
+            for _ in range(rng.randrange(2, 8)):
+                sy, sx = rng.randrange(3, Hm - 4), rng.randrange(3, Wm - 4)
+                if any(lo <= sy <= hi for lo, hi in occupied) or any(abs(sy - a) < 12 for a, _ in specks):
+                    continue
+                # shapes / strengths that survive smoothing, vertical non-maximum suppression and the threshold as 3..4 pixels
+                shape, val = rng.choice([([(0, 0), (0, 1), (1, 0), (1, 1)], 0.6), ([(0, 0), (1, 0), (2, 0)], 1.0), ([(0, 0), (0, 1), (1, 0), (1, 1)], 0.5),
+                                         ([(0, 0), (1, 0), (2, 0)], 0.8), ([(0, 0), (0, 1)], 1.0)])
+                for dy, dx in shape:
+                    maps[sy + dy, sx + dx, 2] = val
+                    maps[sy + dy, sx + dx, 0] = 30.0
+                    maps[sy + dy, sx + dx, 1] = 25.0
+                specks.append((sy, sx))
+            if specks:
+                # keep only speck configurations that are no text line by the decoder's own size criterion when they stand alone
+                # (a generator filter; the oracle below stays independent: one line per RIDGE, with that ridge's geometry)
+                alone = np.zeros_like(maps)
+                for sy, sx in specks:
+                    alone[sy - 1:sy + 3, sx - 1:sx + 4] = maps[sy - 1:sy + 3, sx - 1:sx + 4]
+                with contextlib.redirect_stdout(io.StringIO()):
+                    if len(eng.parse(alone.copy(), ds)[0]) > 0:
+                        for sy, sx in specks:
+                            maps[sy - 1:sy + 3, sx - 1:sx + 4] = 0
+                        specks = []
+                        ctx.count('speck_configurations_dropped')
+        inp = dict(map_shape=[Hm, Wm], downsample=ds, ridges=[{k: (round(v, 2) if isinstance(v, float) else v) for k, v in r.items()} for r in ridges],
+                   noise_specks=specks)
+        if specks:
+            ctx.count('maps_with_noise_specks')
         ctx.evaluations += 1
         try:
             with contextlib.redirect_stdout(io.StringIO()):
